@@ -56,15 +56,18 @@ def run(tier, seed, replay=None):
             raise vlib.Infra("latch replay harness failed:\n" + out[-3000:])
         rc, out, _ = vlib.go_overlay_test("internal/latch", HF, "TestVerifLatchStress", env={"VERIF_OUT": traces["stress"], "VERIF_SEED": str(seed),
                                           "VERIF_N": "30" if tier == "quick" else "400"}, timeout=1500, workdir=os.path.join(wd, "go2"))
-        if rc != 0 and not os.path.exists(traces["stress"]):
-            raise vlib.Infra("latch stress harness failed:\n" + out[-3000:])
+        stress_crash = None
+        if rc != 0:
+            if not os.path.exists(traces["stress"]) or os.path.getsize(traces["stress"]) == 0:
+                raise vlib.Infra("latch stress harness failed:\n" + out[-3000:])
+            stress_crash = out[-1500:]   # the process died (e.g. a panic inside the scheduler goroutine): judge what was recorded
     stats = {}
     samples = []
     for kind, path in traces.items():
         events = vlib.read_ndjson(path)
         module = "Trace_Latch" if kind == "replay" else "LatchHistory"
         tr = vlib.validate_trace(os.path.join(wd, "tv_" + kind), module, path, timeout=3000)
-        if "INCOMPLETE" in tr.tlc.out and not tr.invariant:
+        if "INCOMPLETE" in tr.tlc.out and not tr.invariant and not tr.mismatches:
             raise vlib.Infra("trace validation incomplete (%s):\n%s" % (module, tr.tlc.out[-2000:]))
         runs = vlib.split_runs(events)
         starts = [s for s, _ in runs]
@@ -93,6 +96,8 @@ def run(tier, seed, replay=None):
             stats[kind]["stale_returns"] = sum(1 for e in events if e.get("ev") == "ret" and e.get("stale"))
             stats[kind]["nonstale_returns"] = sum(1 for e in events if e.get("ev") == "ret" and not e.get("stale"))
             stats[kind]["hung"] = any(e.get("ev") == "end" and e.get("hung") for e in events)
+    if not replay and stress_crash and not v.viol:
+        raise vlib.Infra("stress harness crashed and the recorded history shows no violation:\n" + stress_crash)
     nviol = v.finish()
     nrep = stats.get("replay", {}).get("runs", 0)
     cov = dict(states=mc.distinct if mc else 1, transitions=mc.generated if mc else 1,
